@@ -27,7 +27,9 @@ Oracle      : the configuration is read *independently* from src/nunavut/lang/pr
   (e) identity  an input that satisfies (a) and (b) and in which no configured encoding rule finds a match is returned
                 unchanged (and does not raise).
   An exception is an allowed outcome; RuntimeError and ValueError are what _common.py documents, any other type is reported.
-Signatures  : "<lang>|<id-type class>|<clause>[:detail][|cfg-override]".
+Signatures  : "<lang>|<id-type class>|<clause>[:detail][|cfg-override]"; id-type class = the type whose reserved pattern is
+              violated, "all-types" when the clause fails for the input under all six id types, else the requested type
+              ("untyped" for id types without rules of their own); "token" for the compiler oracle.
 """
 from __future__ import annotations
 
@@ -271,8 +273,7 @@ class Verdict(typing.NamedTuple):
 
 def judge(m: Model, s: str, id_type: str, out: Outcome, variant: bool) -> Verdict:
     lang = m.lang
-    tail = "|cfg-override" if m.cfg else ""
-    sig = lambda clause: f"{lang}|{m.idclass(id_type)}|{clause}{tail}"  # noqa: E731
+    sig = lambda clause: clause  # noqa: E731  (the id-type class is decided over all id types of the input: signatures())
     where = f"{lang} filter_id({s!r}, {id_type!r})" + (f" with {m.cfg!r}" if m.cfg else "")
     in_bad = m.grammar(s)
     in_res = s in m.reserved
@@ -350,6 +351,35 @@ def judge(m: Model, s: str, id_type: str, out: Outcome, variant: bool) -> Verdic
     return Verdict(id_type, nontrivial, classes, fails, cc)
 
 
+def signatures(m: Model, verdicts: typing.Sequence[Verdict]) -> typing.List[typing.Tuple[str, str, str]]:
+    """
+    (signature, what, id_type) for the failures of ONE input under the id types it was evaluated with.  The id-type class
+    of a signature is: the type whose reserved pattern is violated (whether requested directly or through 'any');
+    'all-types' when the same clause fails under all six id types (the defect does not depend on the id type); else the
+    requested id type ('untyped' for types without rules of their own).
+    """
+    tail = "|cfg-override" if m.cfg else ""
+    by: "collections.OrderedDict[str, list]" = collections.OrderedDict()
+    for v in verdicts:
+        for clause, what in v.fails:
+            by.setdefault(clause, []).append((v.id_type, what))
+    out = []
+    for clause, lst in by.items():
+        types = [t for t, _ in lst]
+        if clause.startswith("returns-reserved-pattern:") and clause.split(":", 1)[1] != "all":
+            out.append((f"{m.lang}|{clause.split(':', 1)[1]}|returns-reserved-pattern{tail}", lst[0][1], types[0]))
+        elif set(types) >= set(ID_TYPES):
+            out.append((f"{m.lang}|all-types|{clause}{tail}", lst[0][1], types[0]))
+        else:
+            seen = set()
+            for t, what in lst:
+                sg = f"{m.lang}|{m.idclass(t)}|{clause}{tail}"
+                if sg not in seen:
+                    seen.add(sg)
+                    out.append((sg, what, t))
+    return out
+
+
 # ---------------------------------------------------------------------------------------------------------------------
 # shards (pool workers)
 # ---------------------------------------------------------------------------------------------------------------------
@@ -384,10 +414,12 @@ def fw_shard(spec: dict) -> dict:
     rows = []
     for s in shard_inputs(spec):
         tags = []
+        verdicts = []
         for t in ID_TYPES:
             o = call(L, s, t)
             tags.append(outcome_tag(o))
             v = judge(m, s, t, o, variant)
+            verdicts.append(v)
             evals += 1
             for c in v.classes:
                 classes[c] += 1
@@ -395,19 +427,19 @@ def fw_shard(spec: dict) -> dict:
                 nkeys.append(nt_key(lang, ck, t, s))
                 if len(samples) < 2 and isinstance(o, str) and o != s:
                     samples.append({"lang": lang, "cfg": cfg, "id_type": t, "input": s, "returned": o})
-            for sg, what in v.fails:
-                case = {"lang": lang, "cfg": cfg, "items": [[s, t]]}
-                ent = fails.get(sg)
-                if ent is None:
-                    fails[sg] = {"count": 1, "what": what, "case": case}
-                else:
-                    ent["count"] += 1
-                    if len(s) < len(ent["case"]["items"][0][0]):
-                        ent["what"], ent["case"] = what, case
             if v.cc_token is not None:
                 old = tokens.get(v.cc_token)
                 if old is None or (len(s), s, t) < (len(old[0]), old[0], old[1]):
                     tokens[v.cc_token] = [s, t]
+        for sg, what, _ in signatures(m, verdicts):
+            case = {"lang": lang, "cfg": cfg, "items": [[s, t] for t in ID_TYPES]}
+            ent = fails.get(sg)
+            if ent is None:
+                fails[sg] = {"count": 1, "what": what, "case": case}
+            else:
+                ent["count"] += 1
+                if len(s) < len(ent["case"]["items"][0][0]):
+                    ent["what"], ent["case"] = what, case
         rows.append((s, tags))
     return {
         "evals": evals,
@@ -475,12 +507,14 @@ def determinism_diff(m: Model, spec: dict, seed2: str) -> typing.List[typing.Tup
     for other, axis in ((c, "hash-seed"), (b, "evaluation-order")):
         for (s, ta), (_, tb) in zip(a, other):
             if ta != tb:
-                i = next(i for i in range(len(ta)) if ta[i] != tb[i])
+                diff = [i for i in range(len(ta)) if ta[i] != tb[i]]
+                i = diff[0]
                 t = ID_TYPES[i]
                 tail = "|cfg-override" if m.cfg else ""
+                cls = "all-types" if len(diff) == len(ID_TYPES) else m.idclass(t)
                 res.append(
                     (
-                        f"{m.lang}|{m.idclass(t)}|result-depends-on-{axis}{tail}",
+                        f"{m.lang}|{cls}|result-depends-on-{axis}{tail}",
                         f"{m.lang} filter_id({s!r}, {t!r})" + (f" with {m.cfg!r}" if m.cfg else "") + f": {ta[i]!r} in one "
                         f"process, {tb[i]!r} in another one (different {axis}; same inputs evaluated in both)",
                         {"kind": "determinism", "spec": _shrink_spec(spec, s), "seed2": seed2},
@@ -492,7 +526,7 @@ def determinism_diff(m: Model, spec: dict, seed2: str) -> typing.List[typing.Tup
     if not res:
         res.append(
             (
-                f"{m.lang}|any|result-table-not-reproducible" + ("|cfg-override" if m.cfg else ""),
+                f"{m.lang}|all-types|result-table-not-reproducible" + ("|cfg-override" if m.cfg else ""),
                 f"result table digest of shard {json.dumps(spec)[:200]} differed between two processes but three further "
                 "recomputations agree",
                 {"kind": "determinism", "spec": spec, "seed2": seed2},
@@ -695,28 +729,36 @@ def check_case(ctx: core.Ctx, case: dict, cc_tokens: typing.Optional[dict], vari
     m = get_model(lang, cfg)
     ck = cfg_key(cfg)
     res = []
+    by_input: "collections.OrderedDict[str, list]" = collections.OrderedDict()
     for s, t in case["items"]:
-        if s == "":
-            continue
-        o = call(L, s, t)
-        v = judge(m, s, t, o, variant)
-        ctx.case(
-            nt_key(lang, ck, t, s),
-            v.nontrivial,
-            sample={"lang": lang, "cfg": cfg, "id_type": t, "input": s, "returned": outcome_tag(o)},
-            classes=v.classes,
-        )
-        res += v.fails
-        if v.cc_token is not None:
-            if cc_tokens is None:  # replay: compile now
-                bad = cc_oracle(ctx, lang, {v.cc_token: {}})
-                if bad:
-                    res.append(_cc_failure(m, s, t, v.cc_token, bad[v.cc_token]))
-            else:
-                old = cc_tokens[lang].get(v.cc_token)
-                ex = {"lang": lang, "cfg": cfg, "items": [[s, t]]}
-                if old is None or _case_order(ex) < _case_order(old):
-                    cc_tokens[lang][v.cc_token] = ex
+        if s != "" and t not in by_input.setdefault(s, []):
+            by_input[s].append(t)
+    for s, types in by_input.items():
+        verdicts = []
+        compiled: typing.Set[str] = set()
+        for t in types:
+            o = call(L, s, t)
+            v = judge(m, s, t, o, variant)
+            verdicts.append(v)
+            ctx.case(
+                nt_key(lang, ck, t, s),
+                v.nontrivial,
+                sample={"lang": lang, "cfg": cfg, "id_type": t, "input": s, "returned": outcome_tag(o)},
+                classes=v.classes,
+            )
+            if v.cc_token is not None:
+                if cc_tokens is None:  # replay: compile now
+                    if v.cc_token not in compiled:
+                        compiled.add(v.cc_token)
+                        bad = cc_oracle(ctx, lang, {v.cc_token: {}})
+                        if bad:
+                            res.append(_cc_failure(m, s, t, v.cc_token, bad[v.cc_token]))
+                else:
+                    old = cc_tokens[lang].get(v.cc_token)
+                    ex = {"lang": lang, "cfg": cfg, "items": [[s, t]]}
+                    if old is None or _case_order(ex) < _case_order(old):
+                        cc_tokens[lang][v.cc_token] = ex
+        res += [(sg, what) for sg, what, _ in signatures(m, verdicts)]
     return res
 
 
@@ -728,7 +770,7 @@ def _case_order(ex: dict):
 def _cc_failure(m: Model, s: str, t: str, tok: str, diag: str) -> typing.Tuple[str, str]:
     std = "gcc -std=c11" if m.lang == "c" else "g++ -std=c++14"
     return (
-        f"{m.lang}|{m.idclass(t)}|accepted-by-configuration-rejected-by-compiler" + ("|cfg-override" if m.cfg else ""),
+        f"{m.lang}|token|accepted-by-configuration-rejected-by-compiler" + ("|cfg-override" if m.cfg else ""),
         f"{m.lang} filter_id({s!r}, {t!r})" + (f" with {m.cfg!r}" if m.cfg else "") + f" returned {tok!r}: valid and unreserved "
         f"under the configuration, but {std} rejects it as an identifier ({diag})",
     )
@@ -784,10 +826,28 @@ def override_case_strategy(words):
             elif deco == "enc":
                 s = m.encoding_prefix + s
             if s:
-                items += [[s, t] for t in draw(st.lists(st.sampled_from(ID_TYPES), min_size=1, max_size=3, unique=True))]
+                items += [[s, t] for t in ID_TYPES]
         return {"lang": lang, "cfg": c, "items": items}
 
     return case()
+
+
+def hyp_campaign(job: typing.Tuple[str, str, int, int, int]) -> dict:
+    """One Hypothesis campaign in a worker process with a private Ctx; returns what the parent merges."""
+    kind, tier, seed, n, seed_offset = job
+    wctx = core.Ctx("C09", tier, seed)
+    words = all_words()
+    cc_tokens: typing.Dict[str, typing.Dict[str, dict]] = {"c": {}, "cpp": {}}
+    strategy = default_case_strategy(words) if kind == "default" else override_case_strategy(words)
+    core.explore(wctx, strategy, lambda c: check_case(wctx, c, cc_tokens), n, seed_offset=seed_offset)
+    return {
+        "evals": wctx.evaluations,
+        "nkeys": list(wctx._nontrivial),  # pylint: disable=protected-access
+        "classes": dict(wctx.hist),
+        "samples": wctx.samples,
+        "fails": {sg: dict(ent) for sg, ent in wctx.failures.items()},
+        "cc_tokens": cc_tokens,
+    }
 
 
 GRID_QUICK = (["", "_", "__", "9", "_A"], ["", "_", "9"], ["", "zX", "9", "_Z"])
@@ -817,6 +877,7 @@ def run(ctx: core.Ctx):
     ]
     self_check_models()
     words = all_words()
+    ctx.max_samples = 12
     seed2 = str(1000 + ctx.seed)
     if os.environ.get("PYTHONHASHSEED") == seed2:
         seed2 = str(2000 + ctx.seed)
@@ -858,7 +919,7 @@ def run(ctx: core.Ctx):
             ctx.bulk(r["evals"], r["nkeys"], r["classes"])
             for smp in r["samples"]:  # at most one literal sample per (language, default/override, shard kind)
                 k = (spec["lang"], spec.get("cfg") is None, spec["kind"], bool(spec.get("variant")))
-                if k not in sample_kinds and len(ctx.samples) < 6:
+                if k not in sample_kinds and len(ctx.samples) < 9:
                     sample_kinds.add(k)
                     ctx.samples.append(smp)
             for sg, ent in r["fails"].items():
@@ -895,21 +956,27 @@ def run(ctx: core.Ctx):
         ctx.extra["determinism_mismatching_shards_not_diffed"] = len(mismatches) - 12
 
     # ---------------------------------------------------------------- Hypothesis campaigns (in-process)
-    # failures found so far already carry minimal single-call reproductions: keep explore() from spending its shrink budget
-    # on them (it shrinks every unknown signature in ctx.failures), merge afterwards
-    earlier = ctx.failures
-    ctx.failures = collections.OrderedDict()
-    try:
-        core.explore(ctx, default_case_strategy(words), lambda c: check_case(ctx, c, cc_tokens), 5000 if q else 60000)
-        core.explore(ctx, override_case_strategy(words), lambda c: check_case(ctx, c, cc_tokens), 400 if q else 6000, seed_offset=1)
-    finally:
-        found = ctx.failures
-        ctx.failures = earlier
-        for sg, ent in found.items():
-            if sg in ctx.failures:
-                ctx.failures[sg]["count"] += ent["count"]
-            else:
-                ctx.failures[sg] = ent
+    # several independent Hypothesis campaigns (own seed offsets) in worker processes; each collects and shrinks its own
+    # failures with core.explore and returns counters, failures and the tokens for the compiler oracle
+    n_def, n_ovr = (5000, 400) if q else (48000, 4800)
+    jobs = [("default", ctx.tier, ctx.seed, n_def // 8, 10 + i) for i in range(8)]
+    jobs += [("override", ctx.tier, ctx.seed, n_ovr // 4, 100 + i) for i in range(4)]
+    with multiprocessing.Pool(len(jobs)) as pool:
+        for r in pool.imap(hyp_campaign, jobs, chunksize=1):
+            ctx.bulk(r["evals"], r["nkeys"], r["classes"])
+            for smp in r["samples"][:1]:
+                if len(ctx.samples) < ctx.max_samples:
+                    ctx.samples.append(smp)
+            for sg, ent in r["fails"].items():
+                ctx.fail(sg, ent["what"], ent["replay"])
+                ctx.failures[sg]["count"] += ent["count"] - 1
+                if ctx.is_known(sg):
+                    ctx.excluded_known[sg] += ent["count"] - 1
+            for lang, tab in r["cc_tokens"].items():
+                for tok, ex in tab.items():
+                    old = cc_tokens[lang].get(tok)
+                    if old is None or _case_order(ex) < _case_order(old):
+                        cc_tokens[lang][tok] = ex
 
     # ---------------------------------------------------------------- (c) C / C++ compiler oracle over all distinct tokens
     for lang in ("c", "cpp"):
